@@ -29,6 +29,7 @@ package ixkey
 //@ func Cklen(s) (r)
 //@   panics_if len(s) > 4096
 //@   ensures! r == s
+//@   ensures! same: sarr(r) == sarr(s) && off(r) == off(s) && len(r) == len(s)
 
 // Encode: the escape image of s (s itself when it has no zero byte)
 //@ func Encode(s) (r)
@@ -72,3 +73,37 @@ package ixkey
 //@   loop 0 decreases len(key0) - i
 //@   loop 1 invariant len(key) <= len(key0) && len(key) + len(suffix) <= len(key0) && (forall k :: 0 <= k && k < len(key) ==> key[k] == key0[k]) && (forall k :: 0 <= k && k < len(suffix) ==> suffix[k] == key0[len(key0) - len(suffix) + k])
 //@   loop 1 decreases len(key)
+
+// ---- Spec.Key: which form a key has ------------------------------------------------------------------
+// keyRaw names what getRaw returns for a field of a record (Record.GetRaw, lower-cased for _lower! fields).
+// Spec.Key returns the single field unencoded ONLY when the spec has exactly one field and no secondary
+// fields; when all fields are empty and there are secondary fields (the rule that lets several records share
+// an empty key of a unique index) the key starts with one separator per field, so it is never empty.
+//@ spec keyRaw(rec core.Record, f int) string
+//@ func getRaw(rec, field) (r)
+//@   assumed
+//@   pure
+//@   defines sarr(r) == sarr(keyRaw(rec, field)) && off(r) == off(keyRaw(rec, field)) && len(r) == len(keyRaw(rec, field))
+//@ func fieldLen(rec, field) (r)
+//@   assumed
+//@   pure
+//@   ensures r >= 0
+//@ func (spec *Spec) Encodes() (r)
+//@   pure
+//@   requires spec != nil
+//@   ensures! r <==> len(spec.Fields) > 1 || len(spec.Fields2) > 0
+//@ func (spec *Spec) Key(rec) (r)
+//@   nosafety
+//@   maypanic
+//@   pure
+//@   requires spec != nil
+//@   ghost lne int = lastNonEmpty
+//@   ensures! no_fields: len(spec.Fields) == 0 ==> len(r) == 0
+//@   ensures! single_unencoded: len(spec.Fields) == 1 && len(spec.Fields2) == 0 ==> sarr(r) == sarr(keyRaw(rec, spec.Fields[0])) && off(r) == off(keyRaw(rec, spec.Fields[0])) && len(r) == len(keyRaw(rec, spec.Fields[0]))
+//@   ensures! all_empty_with_secondary: len(spec.Fields) >= 1 && len(spec.Fields2) > 0 && lne == -1 ==> len(r) >= 2 * len(spec.Fields) && r[0] == 0 && r[1] == 0
+//@   loop 0 invariant -1 <= lastNonEmpty && lastNonEmpty < len(fields)
+//@   loop 2 invariant frame()
+//@   loop 2 invariant fresh(buf) && len(buf) == 2 * (rangeindex + 1) && -1 <= rangeindex && rangeindex < len(fields) && (len(buf) >= 2 ==> buf[0] == 0 && buf[1] == 0)
+//@   loop 3 invariant frame()
+//@   loop 3 invariant fresh(buf)
+//@   loop 3 invariant lastNonEmpty == -1 ==> len(buf) >= 2 * len(spec.Fields) && buf[0] == 0 && buf[1] == 0
